@@ -185,25 +185,31 @@ fn run_avbc_file(
     vm.execute(func_ref).map_err(|err| err.to_string())
 }
 
-fn collect_required_modules(function: &aelys_bytecode::Function) -> HashSet<String> {
-    let mut modules = HashSet::new();
-    collect_required_modules_rec(function, &mut modules);
+/// The modules the bytecode names, each once, in the order the bytecode records them (the
+/// program's own global layout first, then its nested functions): they are initialised in this
+/// order, the same on every run.
+fn collect_required_modules(function: &aelys_bytecode::Function) -> Vec<String> {
+    let mut modules = Vec::new();
+    let mut seen = HashSet::new();
+    collect_required_modules_rec(function, &mut modules, &mut seen);
     modules
 }
 
 fn collect_required_modules_rec(
     function: &aelys_bytecode::Function,
-    modules: &mut HashSet<String>,
+    modules: &mut Vec<String>,
+    seen: &mut HashSet<String>,
 ) {
     for name in function.global_layout.names() {
         if let Some(module_name) = name.split("::").next()
             && name.contains("::")
+            && seen.insert(module_name.to_string())
         {
-            modules.insert(module_name.to_string());
+            modules.push(module_name.to_string());
         }
     }
     for nested in &function.nested_functions {
-        collect_required_modules_rec(nested, modules);
+        collect_required_modules_rec(nested, modules, seen);
     }
 }
 
@@ -211,7 +217,7 @@ fn load_required_modules(
     vm: &mut VM,
     entry_path: &Path,
     source: std::sync::Arc<Source>,
-    modules: &HashSet<String>,
+    modules: &[String],
     manifest: Option<&Manifest>,
     bundled_modules: &HashMap<String, aelys_bytecode::asm::NativeBundle>,
 ) -> Result<(), String> {
